@@ -16,6 +16,11 @@ NA = {
 }
 
 CLAIMED = {
+ 'C09': dict(
+   technique='deterministic simulation with fault injection: hostile raw peers on the simulated TCP stub send generated and mutated HTTP byte streams in seeded fragments, cut at every offset (peer_close@k), stalled below and beyond the library timeouts, under seeded thread schedules; the real HttpServer/HttpRequest/Socket/File code runs under AddressSanitizer; oracles: no memory error, no ".." in the handler path, no file access outside the web root (disk-stub access log + canaries), exact fields for well-formed streams, prefix-consistency for cut ones, bounded termination (60 simulated s after the last peer closed); enumerated request targets over {. / %2e %2f %25 a}',
+   text='Seeded search over byte streams x cut offsets x fragmentations x schedules. Found and fixed five genuine defects on the unchanged tree (infinite loop on early close, out-of-bounds Range parsing, two negative-length substrings, web-root escape by a target without leading slash). Request targets are enumerated to length 6 (quick) / 8 (thorough) through a single-thread fast path rather than to length 12; Url()/Url::decode totality is input-only and rides along. Evidence, not proof.',
+   ref='DESIGN.md 2.5-2.6, 5 (C09)',
+   note='Trusted: network and disk stubs, AddressSanitizer, the harness HTTP writer; EINTR and TCP-level loss/duplication are not injected (the kernel guarantees streams against them).'),
  'C10': dict(
    technique='deterministic simulation: the real HTTP client, server, socket and file code over an in-process TCP stub (seeded fragmentation, short sends, latency, bounded send buffers -> back-pressure) with a seeded scheduler deciding every handler/client interleaving; raw clients with an independent HTTP writer/reader (arbitrary fragmentation, chunked uploads, keep-alive, Expect: 100-continue); per-request exactness and cross-talk oracles; AddressSanitizer; knob-randomised send block',
    text='Seeded search over request/response plans (1-8 quick, up to 24 thorough requests in flight; bodies boundary-biased around the 16000-byte read block and 128000-byte send block up to 300 KiB, sampled to 8 MiB in thorough; JSON and file bodies with every satisfiable range shape) crossed with network behaviours that are legal for a TCP stream and with schedules. Exact oracle: handler observation = what was sent, client observation = what the handler produced for its own id. Evidence, not proof. Two range edge shapes are recorded as known findings (known_findings.json).',
